@@ -661,7 +661,7 @@ func init() {
 //   - read-only mode: the checkpoints are advanced behind the library's back (by their owners) between the
 //     sessions - loads are fresh reads of the backend, for vBuckets that stay and for vBuckets that are gained.
 type SessionsParams struct {
-	Backend  string `json:"backend"` // "" (couchbase) | file
+	Backend  string `json:"backend"` // "" (couchbase) | file | append (custom backend that appends to the id list it is handed)
 	ReadOnly bool   `json:"read_only"`
 	// Flushed (read-only): before the first rebalance the store shows, for one chosen vBucket, a checkpoint BEYOND
 	// the vBucket's high seqno (bucket flushed / recreated): the session that is assigned this vBucket terminates
@@ -704,6 +704,11 @@ func sessionsMain(p SessionsParams) {
 		f.Close()
 		defer os.Remove(o.FileName)
 	}
+	var am *appendMeta
+	if p.Backend == "append" {
+		am = &appendMeta{memMeta{docs: map[uint16]*models.CheckpointDocument{}}}
+		o.CustomMeta = am
+	}
 	c := NewCluster(&o)
 	stored := map[uint16]c02Tuple{}
 	next := map[uint16]uint64{}
@@ -717,6 +722,10 @@ func sessionsMain(p SessionsParams) {
 	}
 	seed := func(vb uint16) {
 		t := stored[vb]
+		if am != nil {
+			am.docs[vb] = &models.CheckpointDocument{Checkpoint: &models.CheckpointDocumentCheckpoint{VbUUID: t.uuid, SeqNo: t.seq, Snapshot: &models.CheckpointDocumentSnapshot{StartSeqNo: t.s0, EndSeqNo: t.s1}}, BucketUUID: "uuid-" + srcBucket}
+			return
+		}
 		if p.Backend != "file" {
 			seedCheckpoint(c, srcBucket, "g", vb, t.uuid, t.seq, t.s0, t.s1)
 		}
@@ -754,6 +763,21 @@ func sessionsMain(p SessionsParams) {
 		for _, r := range c.Requests {
 			if r.Kind == "openstream" && r.Issued >= t0 {
 				last[r.Vb] = r
+			}
+		}
+		// the member streams exactly its chunk: contiguous, ascending, nothing outside it
+		var reqd []int
+		for _, r := range c.Requests {
+			if r.Kind == "openstream" && r.Issued >= t0 {
+				if int(r.Vb) >= nvb || !in[r.Vb] {
+					vrt.Failf("after %v (member %d/%d): a stream was requested for vb%d, which is not in this member's set %v", hist, cur[0], cur[1], r.Vb, want)
+				}
+				reqd = append(reqd, int(r.Vb))
+			}
+		}
+		for vb := uint16(0); vb < nvb; vb++ {
+			if !in[vb] && c.StreamOpen(vb) {
+				vrt.Failf("after %v (member %d/%d): vb%d is streamed although it is not in this member's set %v", hist, cur[0], cur[1], vb, want)
 			}
 		}
 		for vb := uint16(0); vb < nvb; vb++ {
@@ -838,4 +862,14 @@ func sessionsMain(p SessionsParams) {
 		}
 	}
 	vrt.SetOutcome(fmt.Sprint(hist))
+}
+
+// appendMeta: a custom backend that uses the id list it is handed as scratch space (legal Go: the argument is
+// its own slice header; appending writes behind the caller's length, into whatever the caller's array holds there)
+type appendMeta struct{ memMeta }
+
+func (m *appendMeta) Load(vbIds []uint16, uuid string) (*wrapper.ConcurrentSwissMap[uint16, *models.CheckpointDocument], bool, error) {
+	st, ex, err := m.memMeta.Load(vbIds, uuid)
+	_ = append(vbIds, 65535)
+	return st, ex, err
 }
